@@ -129,12 +129,12 @@ func registerIntrinsics(e *Exec) {
 		lo := e.tc.Int(62135596800)        // 1970
 		hi := e.tc.Int(62135596800 + 1<<33) // ~2242
 		st.assume(e.tc.And(e.tc.Sle(lo, ext), e.tc.Sle(ext, hi)))
-		if e.lastNow != nil {
-			st.assume(e.tc.Sle(e.lastNow, ext))
-		}
-		e.lastNow = ext
 		nsec := e.tc.FreshVar("time.Now.nsec", 64)
 		st.assume(e.tc.Ult(nsec, e.tc.Int(1000000000)))
+		if st.lastNowSec != nil { // the clock never runs backwards along one path
+			st.assume(e.tc.Or(e.tc.Slt(st.lastNowSec, ext), e.tc.And(e.tc.Eq(st.lastNowSec, ext), e.tc.Ule(st.lastNowNsec, nsec))))
+		}
+		st.lastNowSec, st.lastNowNsec = ext, nsec
 		return ret(st, StructV{[]Value{BV{nsec}, BV{ext}, nilPtr}})
 	}
 
